@@ -303,13 +303,16 @@ def check_optimal(O, inst, sol, cfg, status='optimal'):
     O.close(pre + 'field:dual objective', 'dual objective', sol.get('dual objective'), o['dcost'],
             cs + gscale + o['nz'] * o['resz0'], sub)
     if N:
-        O.close(pre + 'field:gap', 'gap', sol.get('gap'), gap, gscale, sub)
+        # the solver reports lambda'lambda; for 'q'/'s' blocks it equals s'z only up to the conditioning of the
+        # scaling (~ sqrt(|s||z|/gap)) accumulated over the iterations: a small part of the gap itself
+        grel = solve.RECOMP_REL if not (d['q'] or d['s']) else 5e-3
+        O.close(pre + 'field:gap', 'gap', sol.get('gap'), gap, gscale, sub, rel=grel)
         O.close(pre + 'field:primal slack', 'primal slack', sol.get('primal slack'), o['ts'], max(1.0, o['ns']), sub)
         O.close(pre + 'field:dual slack', 'dual slack', sol.get('dual slack'), o['tz'], max(1.0, o['nz']), sub)
         rg = sol.get('relative gap')
         if rg is not None and relgap is not None:
             denom = -o['pcost'] if o['pcost'] < 0.0 else o['dcost']
-            O.close(pre + 'field:relative gap', 'relative gap', rg, relgap, gscale / max(abs(denom), 1e-300), sub, rel=1e-5)
+            O.close(pre + 'field:relative gap', 'relative gap', rg, relgap, gscale / max(abs(denom), 1e-300), sub, rel=max(1e-5, grel))
         elif (rg is None) != (relgap is None):
             if not (abs(o['pcost']) <= 1e-9 * cs or abs(o['dcost']) <= 1e-9 * cs):
                 O.bad(pre + 'field:relative gap', 'relative gap: reported %r recomputed %r' % (rg, relgap), sub)
